@@ -78,6 +78,12 @@ class WrapGreenletPass( BasePass ):
       new_constraint_objs[ ( blk_greenlet_mapping.get( x, x ),
                              blk_greenlet_mapping.get( y, y ) ) ] |= objs
 
+    # ... and so are the constraints against top-level methods
+    if hasattr( top._dag, "top_level_callee_constraints" ):
+      top._dag.top_level_callee_constraints = {
+        ( blk_greenlet_mapping.get( x, x ), blk_greenlet_mapping.get( y, y ) )
+        for (x, y) in top._dag.top_level_callee_constraints }
+
     top._dag.final_upblks    = new_upblks
     top._dag.all_constraints = new_constraints
     top._dag.constraint_objs = new_constraint_objs
